@@ -46,6 +46,14 @@ deriving DecidableEq, Repr
 
 abbrev Res (α : Type) := Except MroError (List α)
 
+/-- (core has no `DecidableEq (Except ε α)`; needed to evaluate closed instances by `decide`) -/
+instance exceptDecEq {ε α : Type} [DecidableEq ε] [DecidableEq α] : DecidableEq (Except ε α)
+  | .ok a, .ok b => if h : a = b then isTrue (by rw [h]) else isFalse (fun e => h (by injection e))
+  | .error a, .error b =>
+    if h : a = b then isTrue (by rw [h]) else isFalse (fun e => h (by injection e))
+  | .ok _, .error _ => isFalse (fun e => by cases e)
+  | .error _, .ok _ => isFalse (fun e => by cases e)
+
 /-- `res.append(cand)` / `PyList_Append(acc, candidate)` in front of the rest of the run -/
 def consRes {α : Type} (c : α) : Res α → Res α
   | .ok r => .ok (c :: r)
